@@ -21,7 +21,7 @@ RULE = ('Evaluation = one ampycloud call (CeiloChunk(...), find_slices/find_grou
 ASSUMPTIONS = ['aliasing between chunk.prms and the the caller own dict (lists are assigned by reference) is not claimed by the property and not checked']
 REQUIRED = ['global_nested_edit_after_construction', 'global_list_element_edit', 'snapshot_edit', 'snapshot_list_element_edit',
             'unknown_keys', 'reset_between', 'frame_extra_columns_right_dtypes', 'frame_wrong_dtypes', 'frame_from_previous_chunk',
-            'final_digest_checked', 'prms_none']
+            'final_digest_checked', 'prms_none', 'numpy_valued_prms']
 SIZES = {'quick': 260, 'thorough': 5000}
 
 GLOBAL_EDITS = [
@@ -87,6 +87,11 @@ def percall(rng, sc, tags):
             p.setdefault('LAYERING_PRMS', {}).setdefault('gmm_kwargs', {})['nope'] = None
     if rng.uniform() < 0.3:
         p['MSA'] = None
+    elif rng.uniform() < 0.25:
+        # numpy values given by the caller (0-d arrays are mutable objects owned by the caller)
+        tags.add('numpy_valued_prms')
+        p['MSA'] = np.array(float(rng.choice([2500.0, 4000.0, 12000.0]))) if rng.uniform() < 0.6 else np.float64(3000.0)
+        p['MSA_HIT_BUFFER'] = np.array(500.0) if rng.uniform() < 0.5 else 500.0
     return p
 
 
